@@ -45,3 +45,19 @@ Ltac trig_atom x s c :=
 
 Lemma pos_sum3 a b c : 0 < a*a + b*b + c*c -> 0 < a*a + (b*b + c*c).
 Proof. intros; lra. Qed.
+
+Lemma sqrt_sq_pos x : 0 < x -> sqrt (x * x) = x.
+Proof. intros; apply sqrt_square; lra. Qed.
+Lemma sqrt_sq_neg x : x < 0 -> sqrt (x * x) = - x.
+Proof. intros. replace (x * x) with ((- x) * (- x)) by ring. apply sqrt_square; lra. Qed.
+
+(* side conditions produced by auto_derive / field on the closed-form branches *)
+Ltac nz :=
+  repeat match goal with
+  | |- _ /\ _ => split
+  | |- True => exact I
+  | |- 0 < _ => first [ assumption | lra | nra ]
+  | |- sqrt ?e <> 0 => apply Rgt_not_eq, sqrt_lt_R0; first [ assumption | lra | nra ]
+  | |- ?a * ?b <> 0 => apply Rmult_integral_contrapositive_currified
+  | |- _ <> 0 => first [ assumption | lra | apply Rgt_not_eq; nra | apply Rlt_not_eq; nra ]
+  end.
